@@ -16,3 +16,4 @@ open RV.C01
 #print axioms gen_sound
 #print axioms gen_quiescent
 #print axioms triples_choices
+#print axioms gen_snapshot
